@@ -106,6 +106,8 @@ func c12Run(c *Ctx) {
 		c12Judge(c, cs)
 	}
 	for _, src := range []string{
+		// a lookup helper's "not found" exit yields nil, not the object an earlier call returned: writing through it is an error
+		Lines(Fun("mk", "n", " "+Ret("{name: n, hits: 0}")+" "), Var("rows", `[mk("a"), mk("b")]`), Fun("find", "w", " "+For(Var("i", "0"), "i < "+BI("len", "rows"), "i = i + 1", "{ "+If("rows[i].name == w", "{ "+Ret("rows[i]")+" }")+" }")+" "+Ret("")+" "), `find("a").hits = 1;`, Print("rows"), Var("miss", `find("zzz")`), Print("miss == nil"), Print("miss"), Print(`"before"`), `find("zzz").hits = 9;`, Print(`"AFTER"`), Print("rows")),
 		// literals are fresh per evaluation; two {} are different objects
 		Lines(Var("a", "{}"), Var("b", "{}"), "a.x = 1;", Print("a"), Print("b"), Fun("mk", "", " "+Ret("{n: 0}")+" "), Var("p", "mk()"), Var("q", "mk()"), "p.n = 5;", Print("p"), Print("q")),
 		// comments of every shape between the parts of object code change nothing
